@@ -22,7 +22,7 @@
    not collected, handles survive removal, recreated children start from zero, sequential histories. *)
 Require Import PV.Base.Prelude PV.Model.Conc PV.Model.VecConc.
 Require Import PV.Proofs.VecConcBase PV.Proofs.VecConcLin PV.Proofs.VecConcFacts PV.Proofs.VecConcRT.
-Require Import PV.Spec.SpecC10 PV.Proofs.VecConcStrict PV.Proofs.VecConcSpec PV.Proofs.VecConcSpec2 PV.Proofs.VecConcSpec3 PV.Proofs.VecConcSpec4.
+Require Import PV.Spec.SpecC10 PV.Proofs.VecConcStrict PV.Proofs.VecConcSpec PV.Proofs.VecConcSpec2 PV.Proofs.VecConcSpec3 PV.Proofs.VecConcSpec4 PV.Proofs.VecConcSpec5 PV.Proofs.VecConcSpec6.
 From Coq Require Import Sorted Permutation.
 Open Scope N_scope.
 
@@ -174,7 +174,7 @@ Theorem c10_classifier_is_spec nl es :
   /\ known_c10 nl es = (classify nl es =? 1) /\ strict_unknown nl es = (classify nl es =? 3).
 Proof. exact (conj (classify_strict nl es) (conj (classify_known nl es) (classify_unknown nl es))). Qed.
 
-(* ---- validated trace => executable relaxed spec (uniform theorem of the concurrent properties): PARTIAL ----
+(* ---- validated trace => executable relaxed spec (uniform theorem of the concurrent properties): FULL, proved in stages ----
    FULL STATEMENT:   forall nl nth es, vcheck nl nth es = true -> in_domain nth es = true -> spec_c10_relaxed nl es = true
    ([in_domain] = every event belongs to one of the nth harness threads).
    PROVED ([c10_relaxed_spec_of_validated_partial]): the conjuncts [proved_clauses2] of the spec, via the bridge "the call records the
@@ -197,9 +197,11 @@ Proof. exact (conj (classify_strict nl es) (conj (classify_known nl es) (classif
      (b) "lin_search false does not answer NotFound": needs lin_exists for the relaxed action system from the ghost log (a simulation
          of the spec's sequential map, thread-local handle / snapshot, and the placement of the end-of-reads action); the exactness of
          NotFound is proved (c10_strict_search_exact / dfs_notfound_exact), so no budget clause would be needed.
-         PROVED for scenarios without collect calls ([c10_relaxed_spec_of_validated_nocollect], Proofs/VecConcSpec4.v: the ghost log in
-         time order IS a linearisation - rows_equal, lacts_rt, replay_from); with collects the entry->action map (ACollect -> KSnap, KEnd
-         after the last ARead) and the value / handle / snapshot part of the simulation remain.
+         PROVED: first for scenarios without collect calls ([c10_relaxed_spec_of_validated_nocollect], Proofs/VecConcSpec4.v: the ghost
+         log in time order IS a linearisation - rows_equal, lacts_rt, replay_from), then IN FULL ([c10_relaxed_spec_of_validated],
+         Proofs/VecConcSpec5.v: entry -> actions with ACollect -> KSnap and KEnd on the last entry of the collection's window;
+         Proofs/VecConcSpec6.v: the simulation SimR of the spec's sequential map, values as sums of amounts, thread handle, thread
+         snapshot).  THE FULL STATEMENT IS THEREFORE A THEOREM; the _partial* theorems are kept as its stages.
    [c10_strict_failure_is_known_class] is not attempted: it needs (b) and its converse. *)
 Theorem c10_relaxed_spec_of_validated_partial nl nth es :
   vcheck nl nth es = true -> in_domain nth es = true -> proved_clauses2 nl es = true.
@@ -255,6 +257,24 @@ Proof.
   assert (Hn : no_collect nocollect_trace = true) by (vm_compute; reflexivity).
   split; [exact Hv|]. split; [exact Hd|]. split; [exact Hn|]. exact (relaxed_spec_of_validated_nocollect 1 2 nocollect_trace Hv Hd Hn).
 Qed.
+
+(* (b) in full: on every validated trace in the domain the ghost log yields a linearisation of the relaxed action system (key snapshot at the
+   ACollect entry, end of the value reads at the last entry of the collection's window), so the search cannot answer NotFound, and the
+   FULL relaxed spec holds - the uniform theorem "validator accepts the trace => the executable spec is true" for C10 *)
+Theorem c10_search_not_refuted nl nth es :
+  vcheck nl nth es = true -> in_domain nth es = true ->
+  lin_search false nl (fst (extract es)) <> NotFound \/ incs_ok (fst (extract es)) = false.
+Proof. exact (search_not_refuted nl nth es). Qed.
+Theorem c10_relaxed_spec_of_validated nl nth es :
+  vcheck nl nth es = true -> in_domain nth es = true -> spec_c10_relaxed nl es = true.
+Proof. exact (relaxed_spec_of_validated_full nl nth es). Qed.
+(* non-vacuity: real traces with collections (the racing first requests; the witness of the known finding) are in the domain *)
+Example c10_relaxed_spec_of_validated_examples :
+  spec_c10_relaxed 1 race_trace = true /\ spec_c10_relaxed 1 snapshot_trace = true.
+Proof.
+  split; [apply (relaxed_spec_of_validated_full 1 2) | apply (relaxed_spec_of_validated_full 1 2)]; vm_compute; reflexivity.
+Qed.
+Check c10_relaxed_spec_of_validated : forall nl nth es, vcheck nl nth es = true -> in_domain nth es = true -> spec_c10_relaxed nl es = true.
 
 (* a generated (real) trace is in the domain; on it the whole relaxed spec also evaluates to true *)
 Example c10_race_in_domain :
@@ -374,3 +394,6 @@ Print Assumptions c10_relaxed_spec_of_validated_if_not_refuted.
 Print Assumptions c10_search_not_refuted_nocollect.
 Print Assumptions c10_relaxed_spec_of_validated_nocollect.
 Print Assumptions c10_nocollect_in_domain.
+Print Assumptions c10_search_not_refuted.
+Print Assumptions c10_relaxed_spec_of_validated.
+Print Assumptions c10_relaxed_spec_of_validated_examples.
